@@ -550,6 +550,12 @@ func callSSA(i *interpreter, caller *frame, callpos token.Pos, fn *ssa.Function,
 			return ext(fr, args)
 		}
 		if fn.Blocks == nil {
+			if fv, ok := lookupNative(name); ok {
+				if i.ex != nil {
+					i.ex.exts[name+" (generic native bridge)"]++
+				}
+				return callNative(fr, name, fv, args)
+			}
 			if i.ex != nil && i.ex.inInit {
 				// package-level initialisers that call unmodelled library code
 				// (templates, regexps, ...): leave the variable at its zero value;
